@@ -46,9 +46,10 @@ type vNode struct {
 	Excl    bool `json:"excl"`
 }
 type vEP struct {
-	Ready   *bool `json:"ready"`
-	Serving *bool `json:"serving"`
-	Node    int   `json:"node"` // -1 nil
+	Ready       *bool `json:"ready"`
+	Serving     *bool `json:"serving"`
+	Terminating *bool `json:"terminating"` // irrelevant to EndpointCanServe
+	Node        int   `json:"node"`        // -1 nil
 }
 type vView struct {
 	Names    []string `json:"names"`
@@ -121,10 +122,14 @@ func vGenView(r *rand.Rand) vView {
 		var sl []vEP
 		ne := r.Intn(4)
 		for e := 0; e < ne; e++ {
-			ep := vEP{Ready: vBoolPtr(r), Serving: vBoolPtr(r), Node: r.Intn(n+1) - 1}
-			if r.Intn(2) == 0 { // bias towards serving endpoints
+			ep := vEP{Ready: vBoolPtr(r), Serving: vBoolPtr(r), Terminating: vBoolPtr(r), Node: r.Intn(n+1) - 1}
+			switch r.Intn(4) {
+			case 0, 1: // bias towards ready endpoints
 				b := true
 				ep.Ready = &b
+			case 2: // a replica being replaced: not ready, still serving, terminating
+				f, tr, tr2 := false, true, true
+				ep.Ready, ep.Serving, ep.Terminating = &f, &tr, &tr2
 			}
 			sl = append(sl, ep)
 		}
@@ -157,7 +162,8 @@ func vBuild(v vView, r *rand.Rand) (*config.Pool, *v1.Service, []discovery.Endpo
 		}
 		o := &v1.Node{ObjectMeta: metav1.ObjectMeta{Name: v.Names[i], Labels: map[string]string{"a": "b"}}}
 		if nd.Excl {
-			o.Labels[v1.LabelNodeExcludeBalancers] = ""
+			// the label excludes the node whatever its value is
+			o.Labels[v1.LabelNodeExcludeBalancers] = []string{"", "true", "false", "0"}[r.Intn(4)]
 		}
 		switch nd.Unavail {
 		case 1:
@@ -190,6 +196,7 @@ func vBuild(v vView, r *rand.Rand) (*config.Pool, *v1.Service, []discovery.Endpo
 			ep := discovery.Endpoint{Addresses: []string{fmt.Sprintf("2.3.4.%d", k)}}
 			ep.Conditions.Ready = e.Ready
 			ep.Conditions.Serving = e.Serving
+			ep.Conditions.Terminating = e.Terminating
 			if e.Node >= 0 {
 				nm := v.Names[e.Node]
 				ep.NodeName = &nm
